@@ -115,6 +115,8 @@ class Registry:
         h = self.decorators.get(id(dv))
         if h is not None:
             return h(interp, fn)
+        if isinstance(dv, models._IdentityDecorator):
+            return fn
         import functools
 
         if isinstance(dv, functools.partial) and dv.func is functools.update_wrapper:
@@ -132,7 +134,7 @@ class Registry:
         return None
 
 
-class ReplayInvalid(Exception):
+class ReplayInvalid(BaseException):
     pass
 
 
@@ -205,6 +207,9 @@ class ConcreteCtx:
     def cut(self) -> None:
         raise PathCut()
 
+    def done(self) -> None:
+        raise core.PathDone()
+
     def raise_py(self, cls: type, *args: Any) -> None:
         raise cls(*args)
 
@@ -275,10 +280,21 @@ class V:
         if isinstance(cls, str):
             cls = self.real(cls)
         if self.concrete:
-            o = cls.__new__(cls)
-            for k, val in fields.items():
-                object.__setattr__(o, k, val)
-            return o
+            try:
+                o = cls.__new__(cls)
+                for k, val in fields.items():
+                    object.__setattr__(o, k, val)
+                return o
+            except AttributeError:
+                # slots / read-only names (methods replaced by stubs): use a throw-away subclass
+                sub = type(cls.__name__, (cls,), {})
+                o = sub.__new__(sub)
+                for k, val in fields.items():
+                    try:
+                        object.__setattr__(o, k, val)
+                    except AttributeError:
+                        setattr(sub, k, val)
+                return o
         return Obj(cls, fields)
 
     def set(self, o: Any, name: str, val: Any) -> None:
@@ -308,7 +324,7 @@ class V:
                 elif hasattr(r, '__next__') and hasattr(r, 'send'):
                     r = Yielded(list(r))
                 return Outcome(value=r)
-            except PathCut:
+            except (PathCut, core.PathDone):
                 raise
             except ReplayInvalid:
                 raise
@@ -489,7 +505,11 @@ def replay_concrete(hdef: HarnessDef, model: Dict[str, Any], choices: List[int])
         return 'ran', ctx.results, ''
     except ReplayInvalid as e:
         return 'invalid', ctx.results, str(e)
+    except core.PathDone:
+        return 'ran', ctx.results, ''
     except PathCut:
         return 'ran', ctx.results, 'path cut'
+    except Unreached as e:
+        return 'error', ctx.results, 'unreached in concrete mode: %s' % e
     except Exception:
         return 'error', ctx.results, traceback.format_exc()
